@@ -94,7 +94,46 @@ def helper_partition(I, fd, args):
     misses = filter_list(I, sl, ast.UnaryOp(op=ast.Not(), operand=pred.node.body), pred.env, var)
     hits.partition_twin, misses.partition_twin = misses, hits
     I.path.assume(hits.length + misses.length == sl.length)
+    partition_lemmas(I, sl, hits, misses)
     return (hits, misses)
+
+
+def partition_lemmas(I, whole, hits, misses):
+    """Sum and product of the values over a list split by a predicate (ax_bigsum_partition,
+    ax_bigprod_partition); for hits that are Negation / Reciprocal nodes additionally the sum /
+    product over their operands (ax_bigsum_neg, ax_bigprod_neg, ax_bigprod_inv)."""
+    if gmode.keying():
+        return
+    fam = whole.family
+    sh, sm = hits.filter_of[1], misses.filter_of[1]
+    q = qm(I)
+    for pt in list(I.ghost.get("points", {}).values()):
+        V = lambda t: spec.den(I, fam.child(I, t), pt).V
+        kinds = ((gmode.bigsum, lambda a, b: a + b), (gmode.bigprod, lambda a, b: a * b))
+        # (only the operator of the node under verification is needed)
+        owner = getattr(getattr(I.ghost.get("self"), "cls", None), "name", None)
+        if owner == "Add":
+            kinds = kinds[:1]
+        elif owner == "Multiply":
+            kinds = kinds[1:]
+        for big, comb in kinds:
+            q.links.append(big(I, V, whole.length) == comb(big(I, lambda u: V(sh(u)), hits.length), big(I, lambda u: V(sm(u)), misses.length)))
+        if hits.guard_class in ("Negation", "Reciprocal"):
+            inner = fam.inner_family(I)
+            Vin = lambda u: spec.den(I, inner.child(I, sh(u)), pt).V
+            c = hits.length
+            if hits.guard_class == "Negation":
+                if owner != "Multiply":
+                    q.links.append(gmode.bigsum(I, lambda u: -Vin(u), c) == -gmode.bigsum(I, Vin, c))
+                if owner != "Add":
+                    q.links.append(gmode.bigprod(I, lambda u: -Vin(u), c) == z3.If(c % 2 == 0, 1, -1) * gmode.bigprod(I, Vin, c))
+            elif owner != "Add":
+                # prod (1 / x_u) = 1 / prod x_u  when no x_u is 0 (skolem witness otherwise)
+                w = z3.Int(I.path.fresh_name("w!zero-operand"))
+                q.add_index(w, c)
+                P = gmode.bigprod(I, Vin, c)
+                q.links.append(z3.Or(z3.And(w >= 0, w < c, Vin(w) == 0),
+                                     z3.And(P != 0, gmode.bigprod(I, lambda u: 1 / Vin(u), c) == 1 / P)))
 
 
 def filter_list(I, sl, cond, env, var):
@@ -111,12 +150,30 @@ def filter_list(I, sl, cond, env, var):
     q.foralls.append((c, lambda u: z3.And(sigma(u) >= 0, sigma(u) < sl.length, pred(sigma(u)))))
     # nothing was dropped iff everything satisfies P
     q.links.append((c == sl.length) == gmode.forall_const(I, sl.length, pred, f"all-kept({tag})"))
-    r = SList(c, lambda u: sl.elem(sigma(u)), tag, family=None)
+    guard = None
+    if isinstance(cond, ast.Call):
+        guard = getattr(getattr(I.eval(cond.args[1], env), "cls", None), "name", None)
+    if guard in ("Negation", "Reciprocal", "Sine", "Cosine"):
+        # every element is a <guard> node: hand it out as one (its operand is inner(sigma(u)))
+        fam.unary_refinement_facts(I, guard)
+        inner = fam.inner_family(I)
+        cache = {}
+
+        def elem(u):
+            t = sigma(u)
+            if t.get_id() not in cache:
+                o = Obj(I.prog.classes[guard], f"{fam.name}[{t}]")
+                o.fields["_inner"] = inner.child(I, t)
+                o.fields["_value"] = None
+                o.ghost["viewed_child"] = fam.child(I, t)
+                cache[t.get_id()] = o
+            return cache[t.get_id()]
+    else:
+        elem = lambda u: sl.elem(sigma(u))
+    r = SList(c, elem, tag, family=None)
     r.all_expr = getattr(sl, "all_expr", False)
     r.filter_of = (sl, sigma, pred)
-    r.guard_class = None
-    if isinstance(cond, ast.Call):
-        r.guard_class = getattr(getattr(I.eval(cond.args[1], env), "cls", None), "name", None)
+    r.guard_class = guard
     return r
 
 
@@ -207,6 +264,7 @@ def lazy_map(I, node, env, sl, elt_fn, replaced=None):
                 I.ghost["lazy_depth"] -= 1
         return cache[key]
     r = SList(sl.length, elem, f"map({sl.tag})")
+    r.mapped_from = sl
     f = elt.func if isinstance(elt, ast.Call) else None
     r.all_expr = bool(f is not None and ((isinstance(f, ast.Attribute) and (f.attr in PURE_METHODS or f.attr[:1].isupper()))
                                          or (isinstance(f, ast.Name) and f.id[:1].isupper())))
@@ -252,7 +310,7 @@ def _single_child_call(elt, target):
 
 
 PURE_CALLS = {"str", "repr"}
-PURE_METHODS = {"_synthetic_partial"}
+PURE_METHODS = {"_synthetic_partial", "_normalize"}
 PURE_HELPERS = {"multiply", "list_without_entry_at"}      # used through their contracts (HELPER_CONTRACTS)
 
 
